@@ -1,36 +1,49 @@
 #!/bin/bash
-# seed_matrix.sh [filter-regex] : every (seed, check) pair of seeded/EXPECTED.tsv is applied to /repo,
-# checked with the quick tier and reverted; every benign refactoring is run against the checks named
-# in seeded/BENIGN.tsv and must stay silent. Prints one line per pair; exit 1 on any mismatch.
+# seed_matrix.sh [-j N] [filter-regex]
+# Replays DESIGN.md §12: every seed of seeded/EXPECTED.tsv is applied to a scratch worktree of /repo,
+# the quick tier of each check named for it must exit as expected (1 = caught, 0 = silent); every
+# benign refactoring of seeded/BENIGN.tsv must leave the checks named there silent.
+# N workers run side by side, each on its own copy of /verif (with its own build directory) and its
+# own worktree of /repo under /tmp/mx; /repo and /verif themselves are not touched. Everything
+# under /tmp/mx is removed at the end. Development tool - not referenced by MANIFEST.json.
 set -u
-cd /verif
+J=4
+if [ "${1:-}" = "-j" ]; then J="$2"; shift 2; fi
 F="${1:-.}"
-bad=0
-last=""
-while IFS=$'\t' read -r seed chk want; do
-  case "$seed" in \#*|"") continue;; esac
-  echo "$seed $chk" | grep -Eq "$F" || continue
-  P=/verif/seeded/$seed/patch.diff
-  git -C /repo status --porcelain | grep -q . && { echo "/repo not clean"; exit 2; }
-  if ! git -C /repo apply --check "$P" 2>/dev/null; then echo "$seed $chk: patch does not apply"; bad=1; continue; fi
-  git -C /repo apply "$P"
-  out=$(/verif/run.sh "$chk" quick 2>&1); code=$?
-  git -C /repo checkout -- .
-  if [ "$code" = "$want" ]; then echo "ok    $seed vs $chk: exit=$code"; else echo "WRONG $seed vs $chk: exit=$code, expected $want"; bad=1; fi
-done < seeded/EXPECTED.tsv
-if [ -f seeded/BENIGN.tsv ]; then
-  while IFS=$'\t' read -r patch checks; do
-    case "$patch" in \#*|"") continue;; esac
-    echo "$patch" | grep -Eq "$F" || continue
-    P=/verif/seeded/$patch
-    if ! git -C /repo apply --check "$P" 2>/dev/null; then echo "$patch: patch does not apply"; bad=1; continue; fi
-    git -C /repo apply "$P"
-    for chk in $checks; do
-      out=$(/verif/run.sh "$chk" quick 2>&1); code=$?
-      if [ "$code" = 0 ]; then echo "ok    $patch vs $chk: silent"; else echo "WRONG $patch vs $chk: exit=$code (false alarm)"; bad=1; fi
+V=/verif
+MX=/tmp/mx
+rm -rf $MX; mkdir -p $MX/q
+# work items: one per seed / benign patch: "<patch path>|<check:want check:want ...>"
+awk -F'\t' -v f="$F" '!/^#/ && NF>=3 && ($1" "$2) ~ f {a[$1]=a[$1]" "$2":"$3; if(!($1 in o)){o[$1]=++n; k[n]=$1}} END{for(i=1;i<=n;i++) print "seeded/"k[i]"/patch.diff|"a[k[i]]}' $V/seeded/EXPECTED.tsv > $MX/items
+awk -F'\t' -v f="$F" '!/^#/ && NF>=2 && $1 ~ f {s=""; n=split($2,c," "); for(i=1;i<=n;i++) s=s" "c[i]":0"; print "seeded/"$1"|"s}' $V/seeded/BENIGN.tsv >> $MX/items
+i=0; while read -r line; do i=$((i+1)); echo "$line" > $MX/q/$(printf %04d $i); done < $MX/items
+echo "$(wc -l < $MX/items) work items, $J workers"
+worker() {
+  local w=$1 W=$MX/w$1
+  mkdir -p $W
+  rsync -a --exclude .git --exclude replays --exclude evidence $V/ $W/verif/
+  git -C /repo worktree add --detach $W/repo HEAD >/dev/null 2>&1
+  while :; do
+    item=$(ls $MX/q 2>/dev/null | head -1); [ -z "$item" ] && break
+    mv $MX/q/$item $W/item 2>/dev/null || continue
+    IFS='|' read -r patch checks < $W/item
+    name=${patch#seeded/}; name=${name%/patch.diff}
+    if ! git -C $W/repo apply --check $V/$patch 2>/dev/null; then echo "WRONG $name: patch does not apply"; continue; fi
+    git -C $W/repo apply $V/$patch
+    for cw in $checks; do
+      c=${cw%%:*}; want=${cw##*:}
+      VERIF_REPO=$W/repo $W/verif/run.sh $c quick > $W/out 2>&1; code=$?
+      if [ "$code" = "$want" ]; then echo "ok    $name vs $c: exit=$code"; else echo "WRONG $name vs $c: exit=$code, expected $want"; grep -E "^(VIOLATION|MACHINERY)" $W/out | head -3; fi
     done
-    git -C /repo checkout -- .
-  done < seeded/BENIGN.tsv
-fi
-/verif/run.sh build >/dev/null
-exit $bad
+    git -C $W/repo checkout -- .
+  done
+  git -C /repo worktree remove --force $W/repo >/dev/null 2>&1
+}
+for w in $(seq 1 $J); do worker $w > $MX/log$w 2>&1 & done
+wait
+cat $MX/log* | sort -k2 > $V/seeded/MATRIX.last.txt
+cat $V/seeded/MATRIX.last.txt
+bad=$(grep -c "^WRONG" $V/seeded/MATRIX.last.txt)
+rm -rf $MX; git -C /repo worktree prune
+echo "mismatches: $bad"
+[ "$bad" = 0 ]
